@@ -17,21 +17,22 @@ CUT_MENU = [-10.0, -1.0, 0.0, 0.25, 0.5, 1.0, 2.0, 10.0]
 SORTED_CUTS = {1: [0.4], 2: [-1.1, 1.3], 3: [-1.6, 0.2, 1.9]}
 
 
-def _fit(d, mask, n_cuts, temperature, seed, gemini="mmd_ova"):
+def _fit(d, mask, n_cuts, temperature, seed, gemini="mmd_ova", batch_size=None):
     from gemclus.tree import Douglas
     rs = np.random.RandomState(95_000 + seed + d)
     X = rs.normal(size=(7, d))
-    kw = dict(n_clusters=3, gemini=gemini, n_cuts=n_cuts, temperature=temperature, max_iter=2, random_state=seed, learning_rate=0.05)
+    kw = dict(n_clusters=3, gemini=gemini, n_cuts=n_cuts, temperature=temperature, max_iter=2, random_state=seed, learning_rate=0.05, batch_size=batch_size)
     if mask is not None:
         kw["feature_mask"] = np.array(mask, dtype=bool)
     return Douglas(**kw).fit(X), X
 
 
 def douglas_case(case):
-    d, mask, n_cuts, temperature, seed = case
-    model, X = _fit(d, mask, n_cuts, temperature, seed)
+    d, mask, n_cuts, temperature, seed = case[:5]
+    batch_size = case[5] if len(case) > 5 else None
+    model, X = _fit(d, mask, n_cuts, temperature, seed, batch_size=batch_size)
     used = list(range(d)) if mask is None else [i for i in range(d) if mask[i]]
-    where = dict(d=d, mask=None if mask is None else list(map(int, mask)), n_cuts=n_cuts, temperature=temperature)
+    where = dict(d=d, mask=None if mask is None else list(map(int, mask)), n_cuts=n_cuts, temperature=temperature, batch_size=batch_size)
     v = []
     # leaves
     if model.leaf_scores_.shape != ((n_cuts + 1) ** len(used), 3):
@@ -70,6 +71,12 @@ def douglas_case(case):
         P = model._infer(Q)
         if not (np.all(np.isfinite(P)) and np.all(P >= 0) and np.allclose(P.sum(1), 1, atol=1e-12)):
             v.append(violation("predictions_not_probability_vectors", {"orders": orders}, **where))
+        # the public call on the whole query set (any number of rows, whatever the training batch size) gives every sample its own memberships
+        Ppub = np.asarray(model.predict_proba(Q))
+        if Ppub.shape != P.shape or not (np.all(np.isfinite(Ppub)) and np.all(Ppub >= 0) and np.allclose(Ppub.sum(1), 1, atol=1e-12)) \
+                or not np.allclose(Ppub, P, rtol=1e-12, atol=1e-14) or not np.array_equal(model.predict(Q), P.argmax(1)):
+            bad_rows = np.where(~np.isclose(Ppub, P, rtol=1e-12, atol=1e-14).all(1))[0] if Ppub.shape == P.shape else []
+            v.append(violation("predict_proba_of_a_query_set_is_not_the_per_sample_membership", {"rows": len(Q), "wrong_rows": bad_rows[:10], "orders": orders}, **where))
         leaf = getattr(model, "_leaf", None)
         if leaf is not None:
             if not (np.all(np.isfinite(leaf)) and np.all(leaf >= 0) and np.allclose(leaf.sum(1), 1, atol=1e-12) and leaf.shape[1] == (n_cuts + 1) ** len(used)):
@@ -173,6 +180,8 @@ def explorers(tier, seed):
                     continue
                 for temperature in (10.0, 1.0, 0.1, 0.02):
                     c1.append((d, mask, n_cuts, temperature, seed))
+                for bsz in (2, 4):
+                    c1.append((d, mask, n_cuts, 0.1, seed, bsz))
                 if n_used <= 2:
                     for fc in CUT_MENU:
                         c2.append((d, mask, n_cuts, fc, seed))
